@@ -29,6 +29,9 @@ def setup_repo_import() -> None:
     got = os.path.dirname(os.path.dirname(os.path.abspath(han.__file__)))
     if os.path.realpath(got) != os.path.realpath(REPO):
         raise SystemExit(f"han imported from {got}, expected {REPO}")
+    from mc import cover
+
+    cover.start(REPO)
 
 
 def hx(b) -> str:
@@ -48,6 +51,7 @@ class Part:
         self.s: list = []  # samples
         self.capped: bool = False
         self.mx: dict[str, int] = {}  # maxima (merged by max)
+        self.cov: set = set()  # (file, line) of han/ executed (mc/cover.py)
 
     def add(self, name: str, n: int = 1) -> None:
         self.c[name] = self.c.get(name, 0) + n
@@ -86,6 +90,7 @@ class Part:
         for k, n in other.mx.items():
             if n > self.mx.get(k, 0):
                 self.mx[k] = n
+        self.cov |= other.cov
 
 
 def load_known() -> list[dict]:
@@ -124,6 +129,33 @@ class Run:
 
     def log(self, msg: str) -> None:
         print(f"[{self.pid} {time.time() - self.t0:6.1f}s] {msg}", flush=True)
+
+    def _line_coverage(self) -> dict:
+        """Which lines of the files the property is anchored in were executed by this run (evidence, not a verdict)."""
+        from mc import cover
+
+        self.total.cov |= set(cover.take_new())
+        try:
+            files = None
+            with open(os.path.join(VERIF, "properties.jsonl")) as fh:
+                for line in fh:
+                    pr = json.loads(line)
+                    if pr["id"] == self.pid:
+                        files = [os.path.basename(f) for f in pr["anchors"]["files"] if f.endswith(".py") and "/tests/" not in f and not f.startswith("tests")]
+            exe = cover.executable_lines(REPO)
+        except Exception as ex:  # noqa: BLE001
+            return {"error": repr(ex)}
+        hit = {}
+        for f, ln in self.total.cov:
+            hit.setdefault(f, set()).add(ln)
+        out = {}
+        for f in sorted(files or exe):
+            if f not in exe:
+                continue
+            e = exe[f]
+            h = hit.get(f, set()) & e
+            out[f] = {"executable": len(e), "executed": len(h), "not_executed": cover.ranges(e - h)[:400]}
+        return out
 
     # -- finishing -----------------------------------------------------------
     def finish(self, states: int, transitions: int, traces: int, evaluations: int,
@@ -181,6 +213,7 @@ class Run:
             "maxima": dict(sorted(tot.mx.items())),
             "known_findings_hit": sorted(known_hit),
         }
+        cov["implementation_line_coverage"] = self._line_coverage()
         cov.update(self.extra)
         if self.notes:
             cov["notes"] = self.notes
